@@ -8,6 +8,9 @@ Structure (CONVENTIONS section 2):
   model terms              the same numbers printed as Coq terms, checked by Model/C08.v (correspondence)
   fixtures                 every match file under tests/data/match: no note line lost / duplicated,
                            documented duplicate-id resolution, model's reading of the id table
+  run_history(hist, wd)    state carried between calls: operation lists on LIVE objects (save, edit, save again, readers on
+                           one MatchFile with edits in between), every observation judged against the current state only
+                           (gen_history, edit_desc / edit_live, shrink_history; Model/C08_Hist.v; replay kind "history")
 """
 import json
 import math
@@ -866,7 +869,7 @@ def oracle(case, obs, score=True):
 # ----------------------------------------------------------------------------
 # correspondence: the same numbers as Coq terms (checked by Model/C08.v)
 
-IMPORTS = "From PV Require Import Lib.Base Model.C08 Model.C08_attrs Model.C08_sigs Model.C08_glue."
+IMPORTS = "From PV Require Import Lib.Base Model.C08 Model.C08_attrs Model.C08_sigs Model.C08_glue Model.C08_Hist."
 DEFS = """
 Definition chk_case_export (c : list (Z * Z * Z) * Z * list ((Z * Z) * (Z * Z * Q * Q))) : bool :=
   let '(tab, dpq, ns) := c in forallb (fun n => chk_export (tab, dpq, fst n, snd n)) ns.
@@ -1270,6 +1273,904 @@ def stress_file(rng, text_lines, path):
 
 
 # ----------------------------------------------------------------------------
+# history stream: state carried between calls
+#
+# A history = one or two generated cases (slots "A", "B") and a list of operations.  The interpreter keeps, for every
+# slot, the LIVE objects (Part, PerformedPart, alignment list -- built once, then edited through the public API and in
+# place) and a DESCRIPTION (the case dict) to which every edit is applied as well.  Every save_match on the live
+# objects is judged against the current state only: (1) the written lines must be those of save_match on objects
+# freshly built from the current description (a memo on an object, a result aliasing caller data, a table changed by
+# an earlier call all show up here), (2) loading the file must satisfy every clause of C08 for the current
+# description (`oracle`: this is what sees state shared through a module and number kinds), (3) the arguments are not
+# changed by the call.  The load side (load_matchfile / performed_part_from_match / part_from_matchfile /
+# alignment_from_matchfile called repeatedly, in varying order, with the returned objects and MatchFile.lines
+# edited in between) is judged against a plain load_match of the text the MatchFile holds at that moment.
+
+H_TIME_KINDS = ["float", "f64", "f32", "int", "i64"]
+H_INT_KINDS = ["int", "i64", "i32"]
+
+
+def _num(kind, x):
+    """the number x (a Fraction / int) as a Python or numpy scalar of the given kind"""
+    import numpy as np
+    if kind in ("int", "i64", "i32"):
+        return {"int": int, "i64": np.int64, "i32": np.int32}[kind](int(x))
+    return {"float": float, "f64": np.float64, "f32": np.float32}[kind](float(x))
+
+
+def _exact(kind, x):
+    """the value a scalar of that kind holds for x, as an exact Fraction"""
+    v = _num(kind, x)
+    return Fraction(int(v)) if kind in ("int", "i64", "i32") else Fraction(float(v))
+
+
+def _pieces(part, nid):
+    """the Note objects of one generated note: the note and the pieces it is tied to"""
+    from partitura import score
+    return [o for o in part.iter_all(score.Note, include_subclasses=True)
+            if str(o.id) == nid or str(o.id).startswith(nid + "_t")]
+
+
+def _al_drop_note(al, nid):
+    """alignment (list of dicts, edited in place) after score note nid is gone"""
+    for e in list(al):
+        if e.get("score_id") != nid:
+            continue
+        if e["label"] == "deletion":
+            al.remove(e)
+        else:
+            e.pop("score_id", None)
+            e.pop("type", None)
+            e["label"] = "insertion"
+
+
+def _overlaps(case, pid, pitch, on, off):
+    return any(p["id"] != pid and p["pitch"] == pitch and not (off <= Fraction(p["on"]) or on >= Fraction(p["off"]))
+               for p in case["pnotes"])
+
+
+def edit_desc(case, op):
+    """apply an edit to the description; False when it does not apply (the op is then skipped)"""
+    k = op["op"]
+    pn = {p["id"]: p for p in case["pnotes"]}
+    sn = {n["id"]: n for n in case["notes"]}
+    if k in ("pn_time", "pn_vel", "pn_replace", "pn_delete") and op["pid"] not in pn:
+        return False
+    if k == "pn_time":
+        p = pn[op["pid"]]
+        on, off = Fraction(op["on"]), Fraction(op["off"])
+        if not (0 <= on < off) or _overlaps(case, p["id"], p["pitch"], on, off):
+            return False
+        p["on"], p["off"] = str(on), str(off)
+    elif k == "pn_vel":
+        pn[op["pid"]]["vel"] = op["vel"]
+    elif k == "pn_replace":
+        p = pn[op["pid"]]
+        if _overlaps(case, p["id"], op["pitch"], Fraction(p["on"]), Fraction(p["off"])):
+            return False
+        p["pitch"], p["vel"] = op["pitch"], op["vel"]
+        p.pop("on_tick", None)
+        p.pop("off_tick", None)
+    elif k == "pn_append":
+        p = op["pnote"]
+        if p["id"] in pn or _overlaps(case, p["id"], p["pitch"], Fraction(p["on"]), Fraction(p["off"])):
+            return False
+        case["pnotes"].append(dict(p))
+        case["alignment"].append(dict(label="insertion", performance_id=p["id"]))
+    elif k == "pn_delete":
+        ent = [a for a in case["alignment"] if a.get("performance_id") == op["pid"]]
+        if len(ent) != 1 or ent[0]["label"] != "insertion":
+            return False
+        case["alignment"].remove(ent[0])
+        case["pnotes"].remove(pn[op["pid"]])
+    elif k == "ctrl_set":
+        if op["k"] >= len(case["controls"]):
+            return False
+        case["controls"][op["k"]].update(value=op["value"], time=op["time"])
+    elif k == "ctrl_append":
+        case["controls"].append(dict(number=op["number"], time=op["time"], value=op["value"]))
+    elif k == "ctrl_del":
+        if op["k"] >= len(case["controls"]):
+            return False
+        del case["controls"][op["k"]]
+    elif k == "pp_clock":
+        case["pp_clock"] = [op["ppq"], op["mpq"]]
+    elif k == "al_relabel":
+        ent = [a for a in case["alignment"] if a["label"] == "match" and a["score_id"] == op["sid"]]
+        if not ent:
+            return False
+        pid = ent[0].pop("performance_id")
+        ent[0]["label"] = "deletion"
+        case["alignment"].append(dict(label="insertion", performance_id=pid))
+    elif k == "al_move":
+        if op["k"] >= len(case["alignment"]):
+            return False
+        case["alignment"].append(case["alignment"].pop(op["k"]))
+    elif k == "note_attr":
+        if op["id"] not in sn:
+            return False
+        n = sn[op["id"]]
+        if op["field"] == "arts_append":
+            if op["value"] in n["arts"]:
+                return False
+            n["arts"] = list(n["arts"]) + [op["value"]]
+        else:
+            n[op["field"]] = op["value"]
+    elif k == "note_spell":
+        if op["id"] not in sn:
+            return False
+        n = sn[op["id"]]
+        mp = 12 * (op["octave"] + 1) + BASE[op["step"]] + (op["alter"] or 0)
+        if any(m is not n and m["on"] == n["on"] and 12 * (m["octave"] + 1) + BASE[m["step"]] + (m["alter"] or 0) == mp for m in case["notes"]):
+            return False
+        n.update(step=op["step"], alter=op["alter"], octave=op["octave"])
+    elif k == "note_remove":
+        n = sn.get(op["id"])
+        if n is None or n["tie"] or n.get("fermata"):
+            return False
+        rest = dict(case, notes=[m for m in case["notes"] if m is not n])
+        if not rest["notes"] or not in_domain(rest):
+            return False
+        case["notes"] = rest["notes"]
+        _al_drop_note(case["alignment"], op["id"])
+    elif k == "note_add":
+        n = op["note"]
+        if n["id"] in sn or any(m["on"] == n["on"] and (m["step"], m["alter"] or 0, m["octave"]) == (n["step"], n["alter"] or 0, n["octave"]) for m in case["notes"]):
+            return False
+        b = case["bounds"]
+        if not any(b[i] <= n["on"] and n["on"] + n["dur"] <= b[i + 1] for i in range(len(b) - 1)):
+            return False
+        case["notes"].append(dict(n))
+        case["alignment"].append(dict(label="deletion", score_id=n["id"]))
+    elif k == "note_dur":
+        n = sn.get(op["id"])
+        b = case["bounds"]
+        if n is None or n["tie"] or n["grace"] or n.get("fermata") or op["dur"] <= 0:
+            return False
+        if not any(b[i] <= n["on"] and n["on"] + op["dur"] <= b[i + 1] for i in range(len(b) - 1)):
+            return False
+        n["dur"] = op["dur"]
+    elif k == "key_set":
+        if not (0 <= op["mi"] < len(case["bounds"]) - 1):
+            return False
+        ks = [x for x in case["ksigs"] if x[0] == op["mi"]]
+        if any(len(x) > 3 for x in ks):
+            return False
+        case["ksigs"] = sorted([x for x in case["ksigs"] if x[0] != op["mi"]] + [[op["mi"], op["fifths"], op["mode"]]], key=lambda x: x[0])
+    else:
+        return False
+    return True
+
+
+def edit_live(W, op):
+    """the same edit on the live objects, through the public API or in place"""
+    from partitura import score
+    from partitura.performance import PerformedNote
+    k = op["op"]
+    pp, part, al = W["ppart"], W["part"], W["alignment"]
+    idx = {str(n["id"]): i for i, n in enumerate(pp.notes)}
+    if k == "pn_time":
+        n = pp.notes[idx[str(op["pid"])]]
+        on, off = _num(op["kind"], Fraction(op["on"])), _num(op["kind"], Fraction(op["off"]))
+        if float(on) <= float(n["note_off"]):
+            n["note_on"] = on
+            n["note_off"] = off
+        else:
+            n["note_off"] = off
+            n["note_on"] = on
+        n.pnote_dict["sound_off"] = off
+    elif k == "pn_vel":
+        pp.notes[idx[str(op["pid"])]]["velocity"] = _num(op["kind"], op["vel"])
+    elif k == "pn_replace":
+        i = idx[str(op["pid"])]
+        old = pp.notes[i]
+        pp.notes[i] = PerformedNote(dict(id=old["id"], midi_pitch=_num(op["kind"], op["pitch"]), note_on=old["note_on"],
+                                         note_off=old["note_off"], velocity=_num(op["kind"], op["vel"])))
+    elif k == "pn_append":
+        p = op["pnote"]
+        pp.notes.append(PerformedNote(dict(id=p["id"], midi_pitch=p["pitch"], note_on=_num(op["kind"], Fraction(p["on"])),
+                                           note_off=_num(op["kind"], Fraction(p["off"])), velocity=p["vel"])))
+        al.append(dict(label="insertion", performance_id=p["id"]))
+    elif k == "pn_delete":
+        del pp.notes[idx[str(op["pid"])]]
+        al.remove([a for a in al if a.get("performance_id") == op["pid"]][0])
+    elif k == "ctrl_set":
+        pp.controls[op["k"]]["value"] = op["value"]
+        pp.controls[op["k"]]["time"] = _num(op["kind"], Fraction(op["time"]))
+    elif k == "ctrl_append":
+        pp.controls.append(dict(number=op["number"], time=_num(op["kind"], Fraction(op["time"])), value=op["value"]))
+    elif k == "ctrl_del":
+        del pp.controls[op["k"]]
+    elif k == "pp_clock":
+        pp.ppq, pp.mpq = op["ppq"], op["mpq"]
+    elif k == "al_relabel":
+        e = [a for a in al if a["label"] == "match" and a["score_id"] == op["sid"]][0]
+        pid = e.pop("performance_id")
+        e["label"] = "deletion"
+        al.append(dict(label="insertion", performance_id=pid))
+    elif k == "al_move":
+        al.append(al.pop(op["k"]))
+    elif k == "note_attr":
+        for o in _pieces(part, op["id"]):
+            if op["field"] == "arts_append":
+                if isinstance(o.articulations, list):
+                    o.articulations.append(op["value"])  # in place
+                else:
+                    o.articulations = list(o.articulations or []) + [op["value"]]
+            elif op["field"] == "arts":
+                o.articulations = list(op["value"]) if op["value"] else None
+            elif op["field"] == "orns":
+                o.ornaments = list(op["value"]) if op["value"] else None
+            else:
+                setattr(o, op["field"], op["value"])
+    elif k == "note_spell":
+        for o in _pieces(part, op["id"]):
+            o.step, o.alter, o.octave = op["step"], op["alter"], op["octave"]
+    elif k == "note_remove":
+        for o in _pieces(part, op["id"]):
+            part.remove(o)
+        _al_drop_note(al, op["id"])
+    elif k == "note_add":
+        n = op["note"]
+        part.add(score.Note(id=n["id"], step=n["step"], alter=n["alter"], octave=n["octave"], voice=n["voice"], staff=n["staff"],
+                            articulations=list(n["arts"]) if n["arts"] else None), n["on"], n["on"] + n["dur"])
+        al.append(dict(label="deletion", score_id=n["id"]))
+    elif k == "note_dur":
+        for o in _pieces(part, op["id"]):
+            t = o.start.t
+            part.remove(o)
+            part.add(o, t, t + op["dur"])
+    elif k == "key_set":
+        t = W["case"]["bounds"][op["mi"]]
+        for o in [x for x in part.iter_all(score.KeySignature) if x.start.t == t]:
+            part.remove(o)
+        part.add(score.KeySignature(op["fifths"], op["mode"]), t)
+
+
+def _snap(W):
+    """the VALUES the caller holds in the arguments of save_match (must be the same after the call; the kind of a
+    number and the order of controls / alignment entries / attribute names are not compared)"""
+    pp = W["ppart"]
+
+    def val(v):
+        try:
+            return str(Fraction(float(v))) if not isinstance(v, str) else v
+        except (TypeError, ValueError):
+            return repr(v)
+    attrs = part_attrs(W["part"])["notes"]
+    return dict(alignment=sorted(json.dumps(a, sort_keys=True, default=str) for a in W["alignment"]),
+                pnotes=[sorted((k, val(n.pnote_dict.get(k))) for k in ("id", "midi_pitch", "note_on", "note_off", "velocity")) for n in pp.notes],
+                controls=sorted(sorted((k, val(c.get(k))) for k in ("number", "time", "value")) for c in pp.controls),
+                notes=sorted((nid, repr(a[0]), repr(a[1]), sorted(a[2]), sorted(a[3]), a[4], sorted(a[5]), a[6]) for nid, a in attrs.items()))
+
+
+def _fresh_text(case, ppq, mpq, path):
+    """save_match on objects freshly built from the description -> sorted lines, or ("error", type name)"""
+    from partitura.io.exportmatch import save_match
+    with warnings.catch_warnings():
+        warnings.simplefilter("ignore")
+        part, ppart, al = build_objects(case)
+        try:
+            save_match(al, ppart, part, out=path, mpq=int(mpq), ppq=int(ppq), assume_unfolded=True)
+        except Exception as e:
+            return ("error", type(e).__name__)
+    with open(path) as f:
+        out = f.read().splitlines()
+    os.remove(path)
+    return out
+
+
+def _norm_lines(lines):
+    """the lines as a sorted list, without what C08 does not name: the channel / track fields of played notes (wrapping
+    a PerformedPart in a Performance renumbers the tracks) and the order of the tokens of an attribute list"""
+    import re
+
+    def attrs(m):
+        return "[" + ",".join(sorted(m.group(1).split(","))) + "])"
+    out = []
+    for ln in lines:
+        ln = re.sub(r"(note\([^()]*?),\d+,\d+\)\.$", r"\1).", ln)
+        if ln.startswith("snote("):
+            ln = re.sub(r"\[([^\[\]]*)\]\)", attrs, ln)
+        out.append(ln)
+    return sorted(out)
+
+
+def _diff_lines(a, b):
+    from collections import Counter
+    a, b = _norm_lines(a), _norm_lines(b)
+    ca, cb = Counter(a), Counter(b)
+    return sorted((ca - cb).elements())[:2], sorted((cb - ca).elements())[:2]
+
+
+def _try(fn):
+    try:
+        return fn()
+    except Exception as e:
+        return ("error", type(e).__name__)
+
+
+def _load_obs(path):
+    """a fresh load_matchfile of the file and the three readers, each on its own -> observations (or ("error", type))"""
+    from partitura.io import importmatch as IM
+    with warnings.catch_warnings():
+        warnings.simplefilter("ignore")
+        try:
+            mf = IM.load_matchfile(path)
+        except Exception as e:
+            err = ("error", type(e).__name__)
+            return dict(perf=err, alignment=err, loaded=err)
+        return dict(perf=_try(lambda: observe_perf(IM.performed_part_from_match(mf))),
+                    alignment=_try(lambda: _al_obs(IM.alignment_from_matchfile(mf))),
+                    loaded=_try(lambda: observe_part(IM.part_from_matchfile(mf))))
+
+
+def _al_obs(al):
+    return [dict((k, v) for k, v in sorted(a.items()) if isinstance(v, (str, int))) for a in al]
+
+
+def _mf_rows(mf, it):
+    """(kind, sid, pid) of the note lines of a MatchFile, interned; None if a line is outside the model"""
+    rows = []
+    for ln in mf.lines:
+        c = classify(ln)
+        if c is None:
+            continue
+        if c[3]:
+            return None
+        rows.append((c[0], it(c[1]), it(c[2])))
+    return rows
+
+
+def run_history(hist, workdir, name="h"):
+    """-> (violations [(op index, clause, message)], coq terms dict(phist=[...], mhist=[...]), counters)"""
+    import numpy as np
+    from partitura import score
+    from partitura.performance import Performance
+    from partitura.io import importmatch as IM
+
+    os.makedirs(workdir, exist_ok=True)
+    bad, terms, counts = [], dict(phist=[], mhist=[]), {}
+
+    def count(k):
+        counts[k] = counts.get(k, 0) + 1
+    slots = {}
+    with warnings.catch_warnings():
+        warnings.simplefilter("ignore")
+        for s in ("A", "B"):
+            if hist.get(s):
+                c = json.loads(json.dumps(hist[s]))
+                c["legs"] = []
+                try:
+                    part, ppart, al = build_objects(c)
+                except Exception:
+                    return [], terms, {"input_rejected_by_constructors": 1}
+                slots[s] = dict(case=c, part=part, ppart=ppart, alignment=al, last=None, ph=None)
+    scr = perf = None  # one Score / Performance container of the history: its part is REPLACED when another slot is saved
+
+    def ph_start(W):
+        W["ph"] = dict(init=[dict(p) for p in W["case"]["pnotes"]], clock=list(W["case"].get("pclock") or (W["case"]["ppq"], W["case"]["mpq"])),
+                       ops=[], obs=[], ok=True)
+
+    def ph_close(W):
+        ph = W["ph"]
+        if ph and ph["ok"] and ph["obs"]:
+            def cp(p):
+                st = ctuple([cz(p["on_tick"]), cz(p["off_tick"])]) if "on_tick" in p else None
+                return "(mkP %s %s %s %s %s)" % (cz(p["pitch"]), cz(p["vel"]), cq(Fraction(p["on"])), cq(Fraction(p["off"])), copt(st, lambda x: x))
+            ops = []
+            for o in ph["ops"]:
+                if o[0] == "HSetTimes":
+                    ops.append("(HSetTimes %d%%nat %s %s)" % (o[1], cq(o[2]), cq(o[3])))
+                elif o[0] == "HSetVel":
+                    ops.append("(HSetVel %d%%nat %s)" % (o[1], cz(o[2])))
+                elif o[0] == "HReplace":
+                    ops.append("(HReplace %d%%nat %s)" % (o[1], cp(o[2])))
+                elif o[0] == "HAppend":
+                    ops.append("(HAppend %s)" % cp(o[1]))
+                elif o[0] == "HDelete":
+                    ops.append("(HDelete %d%%nat)" % o[1])
+                else:
+                    ops.append("(%s %s %s)" % (o[0], cz(o[1]), cz(o[2])))
+            obs = clist([clist([ctuple([cz(a), cz(b), cz(c), cz(d)]) for a, b, c, d in ob]) for ob in ph["obs"]])
+            terms["phist"].append(ctuple([clist([cp(p) for p in ph["init"]]), ctuple([cz(ph["clock"][0]), cz(ph["clock"][1])]), clist(ops), obs]))
+        W["ph"] = None
+
+    for W in slots.values():
+        ph_start(W)
+    for oi, op in enumerate(hist["ops"]):
+        k = op["op"]
+        W = slots.get(op.get("slot", "A"))
+        if W is None:
+            continue
+        if k == "save":
+            ppq, mpq = op["clock"]
+            c_now = dict(W["case"], ppq=ppq, mpq=mpq)
+            with warnings.catch_warnings():
+                warnings.simplefilter("ignore")
+                sarg = W["part"]
+                if op.get("skind") == "score":
+                    if scr is None:
+                        scr = score.Score(partlist=[W["part"]], id="S")
+                    elif scr[0] is not W["part"]:
+                        scr[0] = W["part"]
+                        count("h:part_replaced_in_score")
+                    sarg = scr
+                elif op.get("skind") == "list":
+                    sarg = [W["part"]]
+                parg = W["ppart"]
+                if op.get("pkind") == "performance":
+                    if perf is None:
+                        perf = Performance(id="X", performedparts=[W["ppart"]])
+                    elif perf[0] is not W["ppart"]:
+                        perf[0] = W["ppart"]
+                        count("h:part_replaced_in_performance")
+                    parg = perf
+                elif op.get("pkind") == "list":
+                    parg = [W["ppart"]]
+                pre = _snap(W)
+                obs = dict(status="ok", use_defaults=bool(op.get("defaults")), orig=observe_part(W["part"]), src=export_src_case(W["case"]),
+                           src_attrs=part_attrs(W["part"]))
+                path = os.path.join(workdir, "%s_%s.match" % (name, op.get("slot", "A")))  # the same path over the history
+                obs = run_leg(obs, W["alignment"], parg, sarg, _num(op.get("ckind", "int"), ppq), _num(op.get("ckind", "int"), mpq), path)
+                post = _snap(W)
+            count("h:save")
+            count("h:save_%s_%s_%s" % (op.get("skind", "part"), op.get("pkind", "ppart"), op.get("ckind", "int")))
+            for key in pre:
+                if pre[key] != post[key]:
+                    bad.append((oi, "args_changed", "save_match changed its argument (%s): before %s, after %s" % (key, str(pre[key])[:200], str(post[key])[:200])))
+            fresh = _fresh_text(W["case"], ppq, mpq, os.path.join(workdir, name + "_fresh.match"))
+            if obs["status"] == "save_error":
+                if not (isinstance(fresh, tuple) and fresh[1] == obs["error"].split(":")[0]):
+                    bad.append((oi, "history_save", "save_match on the edited objects raises %s; on objects freshly built from the current state: %s"
+                                % (obs["error"][:160], fresh if isinstance(fresh, tuple) else "%d lines" % len(fresh))))
+                W["last"] = None
+                if W["ph"]:
+                    W["ph"]["ok"] = False
+                continue
+            if obs["status"] != "ok":
+                bad.append((oi, obs["status"], obs.get("error", "")[:300]))
+                W["last"] = None
+                continue
+            if isinstance(fresh, tuple):
+                bad.append((oi, "history_save", "save_match works on the edited objects but raises %s on objects freshly built from the current state" % fresh[1]))
+            elif _norm_lines(fresh) != _norm_lines(obs["text_lines"]):
+                a, b = _diff_lines(obs["text_lines"], fresh)
+                bad.append((oi, "history_save", "lines written for the edited objects differ from those for freshly built objects of the same state: only live %s, only fresh %s" % (a, b)))
+            bad += [(oi, cl, msg) for cl, msg in oracle(c_now, obs)]
+            W["last"] = dict(text=obs["text_lines"], obs=obs, case=c_now, al_obs=_al_obs(obs["_live"][1]))
+            ph = W["ph"]
+            if ph is not None:
+                by = {ln["pid"]: ln for ln in obs["file"]["lines"] if "pid" in ln}
+                row = [by.get(fmt_pid(p["id"])) for p in W["case"]["pnotes"]]
+                if any(near_tie(c_now, Fraction(p[x])) for p in W["case"]["pnotes"] for x in ("on", "off")):
+                    ph["ok"] = False
+                ph["ops"].append(("HSave", ppq, mpq))
+                ph["obs"].append([(r["pitch"], r["vel"], r["on"], r["off_t"]) for r in row if r is not None])
+            continue
+        if k == "save_ret":  # out=None: the MatchFile is returned; it is then written into
+            from partitura.io.exportmatch import save_match
+            ppq, mpq = op["clock"]
+            with warnings.catch_warnings():
+                warnings.simplefilter("ignore")
+                try:
+                    mf = save_match(W["alignment"], W["ppart"], W["part"], ppq=ppq, mpq=mpq, assume_unfolded=True)
+                    got = [ln.matchline for ln in mf.lines]
+                except Exception as e:
+                    got = ("error", type(e).__name__)
+            fresh = _fresh_text(W["case"], ppq, mpq, os.path.join(workdir, name + "_fresh.match"))
+            count("h:save_returned")
+            if isinstance(got, tuple) or isinstance(fresh, tuple):
+                if got != fresh:
+                    bad.append((oi, "history_save", "save_match(out=None) on the edited objects: %s; on freshly built objects: %s" % (str(got)[:100], str(fresh)[:100])))
+                continue
+            if _norm_lines(got) != _norm_lines(fresh):
+                a, b = _diff_lines(got, fresh)
+                bad.append((oi, "history_save", "lines of the returned MatchFile differ from those for freshly built objects of the same state: only live %s, only fresh %s" % (a, b)))
+            for ln in mf.lines:  # scribble on what was returned
+                if hasattr(ln, "snote"):
+                    ln.snote.ScoreAttributesList.append("scribble")
+                    ln.snote.Duration = ln.snote.Offset
+                if hasattr(ln, "note"):
+                    ln.note.Velocity = 1
+                    ln.note.Onset = 0
+            mf.lines = mf.lines[:3]
+            continue
+        if k == "adopt":  # go on with the performance and alignment that were loaded after the last save
+            L = W["last"]
+            if not L or "_live" not in L["obs"]:
+                continue
+            ph_close(W)
+            p2, al2, _ = L["obs"]["_live"]
+            W["case"] = derive_case(W["case"], L["obs"], L["case"]["ppq"], L["case"]["mpq"], "orig")
+            W["case"]["alignment"] = json.loads(json.dumps([dict((k, v) for k, v in a.items()) for a in al2], default=str))
+            W["ppart"], W["alignment"] = p2[0], al2
+            ph_start(W)
+            count("h:adopt_loaded_performance")
+            continue
+        if k == "load":
+            L = W["last"]
+            if not L:
+                continue
+            text = list(L["text"])
+            path = os.path.join(workdir, "%s_%s_in.match" % (name, op.get("slot", "A")))
+            with open(path, "w") as f:
+                f.write("\n".join(text) + "\n")
+            if op.get("stress") is not None:
+                import random
+                stress_file(random.Random(op["stress"]), text, path)
+            it = Intern()
+            seq_obs, mops, mobs, model_ok = [], [], [], True
+            ref_path = os.path.join(workdir, name + "_ref.match")
+
+            def reference(mf):
+                """plain load_match of the text the MatchFile holds now"""
+                with warnings.catch_warnings():
+                    warnings.simplefilter("ignore")
+                    mf.write(ref_path)
+                return _load_obs(ref_path)
+            with warnings.catch_warnings():
+                warnings.simplefilter("ignore")
+                try:
+                    mf = IM.load_matchfile(path)
+                except Exception as e:
+                    bad.append((oi, "load_error", "load_matchfile raises %s: %s" % (type(e).__name__, str(e)[:200])))
+                    continue
+                rows0 = _mf_rows(mf, it)
+                ref = reference(mf)
+                if op.get("stress") is None:
+                    for key in ("perf", "alignment", "loaded"):
+                        if ref[key] != (L["al_obs"] if key == "alignment" else L["obs"][key]):
+                            bad.append((oi, "history_load", "loading the same text again gives another %s than the first load" % key))
+                for step in op["seq"]:
+                    count("h:load_" + step.split(":")[0])
+                    try:
+                        if step == "perf":
+                            got = _try(lambda: observe_perf(IM.performed_part_from_match(mf)))
+                            if got != ref["perf"]:
+                                d = "%s / %s" % (str(got)[:60], str(ref["perf"])[:60])
+                                if isinstance(got, dict) and isinstance(ref["perf"], dict):
+                                    d = "%d vs %d notes, %d vs %d controls, first difference %s" % (
+                                        len(got["notes"]), len(ref["perf"]["notes"]), len(got["controls"]), len(ref["perf"]["controls"]),
+                                        [(a, b) for a, b in zip(got["notes"] + got["controls"], ref["perf"]["notes"] + ref["perf"]["controls"]) if a != b][:1])
+                                bad.append((oi, "history_load", "performed_part_from_match(mf) differs from a fresh load of the lines the MatchFile holds now (%s)" % d))
+                            mops.append("MNotes")
+                            mobs.append((1, [("insertion", None, it(str(n.Id))) for n in mf.notes]))
+                        elif step == "perf_zero":
+                            _try(lambda: IM.performed_part_from_match(mf, first_note_at_zero=True))
+                        elif step == "perf_scribble":
+                            def scribble():
+                                pp = IM.performed_part_from_match(mf)
+                                for n in pp.notes:
+                                    n["note_off"] = n["note_off"] + 5.0
+                                    n.pnote_dict["sound_off"] = n["note_off"]
+                                    n["note_on"] = n["note_on"] + 5.0
+                                    n["velocity"] = 1
+                                for c in pp.controls:
+                                    c["value"], c["time"] = 99, 0.0
+                                del pp.notes[::2]
+                                pp.controls.append(dict(number=64, time=0.0, value=99))
+                            _try(scribble)
+                        elif step == "align":
+                            al = IM.alignment_from_matchfile(mf)
+                            got = _al_obs(al)
+                            if got != ref["alignment"]:
+                                bad.append((oi, "history_load", "alignment_from_matchfile(mf) differs from a fresh load of the lines the MatchFile holds now: %s ..."
+                                            % [x for x in got if x not in ref["alignment"]][:2]))
+                            mops.append("MAlign")
+                            mobs.append((0, [(a["label"], it(a.get("score_id")), it(a.get("performance_id"))) for a in al]))
+                            if op.get("scribble_alignment"):
+                                for a in al:
+                                    a["label"] = "insertion"
+                                    a["performance_id"] = "zz"
+                                del al[::2]
+                        elif step == "part":
+                            got = _try(lambda: observe_part(IM.part_from_matchfile(mf)))
+                            if got != ref["loaded"]:
+                                what = [key for key in got if got[key] != ref["loaded"][key]] if isinstance(got, dict) and isinstance(ref["loaded"], dict) else [str(got)[:60], str(ref["loaded"])[:60]]
+                                bad.append((oi, "history_load", "part_from_matchfile(mf) differs from a fresh load of the lines the MatchFile holds now (differing: %s)" % what))
+                        elif step == "part_scribble":
+                            def scribble():
+                                p = IM.part_from_matchfile(mf)
+                                for n in p.notes:
+                                    n.voice, n.staff, n.step = 9, 9, "C"
+                                    if n.articulations is not None:
+                                        n.articulations.add("accent") if isinstance(n.articulations, set) else n.articulations.append("accent")
+                                for n in list(p.notes)[::2]:
+                                    p.remove(n)
+                            _try(scribble)
+                        elif step == "validate":
+                            IM.validate_match_ids(mf)
+                            mops.append("MValidate")
+                            ref = reference(mf)
+                        elif step.startswith("drop:"):
+                            note_idx = [i for i, ln in enumerate(mf.lines) if classify(ln) is not None]
+                            if not note_idx:
+                                continue
+                            j = int(step[5:]) % len(note_idx)
+                            mf.lines = np.delete(mf.lines, note_idx[j])
+                            mops.append("(MDrop %d%%nat)" % j)
+                            ref = reference(mf)
+                        elif step.startswith("droppedal:"):
+                            ped_idx = [i for i, ln in enumerate(mf.lines) if hasattr(ln, "Time") and hasattr(ln, "Value") and not hasattr(ln, "Attribute")]
+                            if not ped_idx:
+                                continue
+                            mf.lines = np.delete(mf.lines, ped_idx[int(step[10:]) % len(ped_idx)])
+                            ref = reference(mf)
+                        elif step.startswith("vel:"):
+                            ns = mf.notes
+                            if not ns:
+                                continue
+                            n = ns[int(step[4:]) % len(ns)]
+                            n.Velocity = 1 + (int(n.Velocity) + 17) % 120
+                            ref = reference(mf)
+                    except Exception as e:
+                        bad.append((oi, "history_load", "%s on a loaded MatchFile raises %s: %s" % (step, type(e).__name__, str(e)[:200])))
+                        model_ok = False
+                        break
+            if rows0 is not None and model_ok and mobs:
+                def crow(r):
+                    return cline(r[0], r[1], r[2])
+                terms["mhist"].append(ctuple([clist([crow(r) for r in rows0]), clist(mops),
+                                              clist([ctuple([cz(t), clist([crow(r) for r in rows])]) for t, rows in mobs])]))
+            continue
+        # an edit: description first (decides whether it applies), then the live objects
+        trial = json.loads(json.dumps(W["case"]))
+        if not edit_desc(trial, op):
+            count("h:edit_skipped")
+            continue
+        pidx = {p["id"]: i for i, p in enumerate(W["case"]["pnotes"])}
+        try:
+            with warnings.catch_warnings():
+                warnings.simplefilter("ignore")
+                edit_live(W, op)
+        except Exception as e:
+            bad.append((oi, "history_edit", "editing the objects (%s) raises %s: %s" % (k, type(e).__name__, str(e)[:200])))
+            break
+        W["case"] = trial
+        count("h:edit_" + k)
+        ph = W["ph"]
+        if ph is not None:
+            if k == "pn_time":
+                ph["ops"].append(("HSetTimes", pidx[op["pid"]], Fraction(op["on"]), Fraction(op["off"])))
+            elif k == "pn_vel":
+                ph["ops"].append(("HSetVel", pidx[op["pid"]], op["vel"]))
+            elif k == "pn_replace":
+                ph["ops"].append(("HReplace", pidx[op["pid"]], dict(trial["pnotes"][pidx[op["pid"]]])))
+            elif k == "pn_append":
+                ph["ops"].append(("HAppend", dict(op["pnote"])))
+            elif k == "pn_delete":
+                ph["ops"].append(("HDelete", pidx[op["pid"]]))
+            elif k == "pp_clock":
+                ph["ops"].append(("HSetClock", op["ppq"], op["mpq"]))
+    for W in slots.values():
+        ph_close(W)
+    for fn in os.listdir(workdir):
+        if fn.startswith(name + "_"):
+            try:
+                os.remove(os.path.join(workdir, fn))
+            except OSError:
+                pass
+    return bad, terms, counts
+
+
+def gen_history(rng):
+    """a generated history: cases A (and B in 45 %), 8-16 operations; every edit is tried on a copy of the description so
+    that its parameters fit the state it meets"""
+    def small():
+        for _ in range(20):
+            c = gen_case(rng, 0.5)
+            grace = {n["id"] for n in c["notes"] if n["grace"]}
+            if len(c["notes"]) <= 14 and len([a for a in c["alignment"] if a["label"] == "match" and a["score_id"] not in grace]) >= 2:
+                break
+        c["legs"] = []
+        return c
+    hist = dict(kind="history", A=small(), B=small() if rng.random() < 0.45 else None, ops=[])
+    desc = {s: json.loads(json.dumps(hist[s])) for s in ("A", "B") if hist[s]}
+    fresh_id = [0]
+
+    def grid_time(case, kind):
+        if kind in ("int", "i64"):
+            return Fraction(rng.randint(0, 12))
+        if kind == "f32" and rng.random() < 0.8:
+            # single precision: a time a little off a half tick of a clock that is likely to be asked next (the double
+            # product decides it safely, a single precision product does not)
+            pq, mq = case.get("_hint_clock") or rng.choice(CLOCKS[:4] + PAIRS[:3])  # one clock for all such edits up to the next save
+            case["_hint_clock"] = [pq, mq]
+            x = (rng.randint(20000, 120000) + Fraction(1, 2) + rng.choice([-1, 1]) * Fraction(rng.randint(5, 40), 10000)) * Fraction(mq, 10 ** 6 * pq)
+            return _exact(kind, x)
+        pq, mq = case.get("pclock") or (case["ppq"], case["mpq"])
+        tick = Fraction(mq, 10 ** 6 * pq)
+        r = rng.random()
+        x = (rng.randint(0, 6000) + (Fraction(1, 2) if r < 0.1 else 0)) * tick if r < 0.6 else Fraction(rng.randint(0, 12000), 1000)
+        return _exact(kind, x)
+
+    def draw_edit(slot):
+        c = desc[slot]
+        r = rng.random()
+        kind = rng.choice(H_TIME_KINDS + ["f32", "f32"])
+        if r < 0.26 and c["pnotes"]:
+            p = rng.choice(c["pnotes"])
+            on = grid_time(c, kind)
+            ln = _exact(kind, max(Fraction(1), Fraction(rng.randint(20, 900), 1000))) if kind in ("int", "i64") else Fraction(rng.randint(20, 900), 1000)
+            off = _exact(kind, on + ln)
+            return dict(op="pn_time", slot=slot, pid=p["id"], on=str(on), off=str(off), kind=kind)
+        if r < 0.32 and c["pnotes"]:
+            return dict(op="pn_vel", slot=slot, pid=rng.choice(c["pnotes"])["id"], vel=rng.randint(1, 127), kind=rng.choice(H_INT_KINDS[:2]))
+        if r < 0.38 and c["pnotes"]:
+            return dict(op="pn_replace", slot=slot, pid=rng.choice(c["pnotes"])["id"], pitch=rng.randint(21, 108), vel=rng.randint(1, 127), kind=rng.choice(H_INT_KINDS[:2]))
+        if r < 0.43:
+            fresh_id[0] += 1
+            on = grid_time(c, kind)
+            off = _exact(kind, on + (1 if kind in ("int", "i64") else Fraction(rng.randint(30, 500), 1000)))
+            return dict(op="pn_append", slot=slot, kind=kind, pnote=dict(id="n%d" % (900 + fresh_id[0]), pitch=rng.randint(21, 108), on=str(on), off=str(off), vel=rng.randint(1, 127)))
+        if r < 0.46:
+            ins = [a["performance_id"] for a in c["alignment"] if a["label"] == "insertion"]
+            if ins:
+                return dict(op="pn_delete", slot=slot, pid=rng.choice(ins))
+        if r < 0.52 and c["controls"]:
+            return dict(op="ctrl_set", slot=slot, k=rng.randrange(len(c["controls"])), value=rng.choice([0, 127, 64, 63, 30]), time=str(grid_time(c, kind)), kind=kind)
+        if r < 0.57:
+            return dict(op="ctrl_append", slot=slot, number=rng.choice([64, 67, 64, 7]), value=rng.choice([0, 127, 64, 63]), time=str(grid_time(c, kind)), kind=kind)
+        if r < 0.59 and c["controls"]:
+            return dict(op="ctrl_del", slot=slot, k=rng.randrange(len(c["controls"])))
+        if r < 0.63:
+            pq, mq = pick_clock(rng)
+            return dict(op="pp_clock", slot=slot, ppq=pq, mpq=mq)
+        if r < 0.67:
+            grace = {n["id"] for n in c["notes"] if n["grace"]}
+            m = [a["score_id"] for a in c["alignment"] if a["label"] == "match" and a["score_id"] not in grace]
+            if len(m) >= 3:
+                return dict(op="al_relabel", slot=slot, sid=rng.choice(m))
+        if r < 0.70 and c["alignment"]:
+            return dict(op="al_move", slot=slot, k=rng.randrange(len(c["alignment"])))
+        n = rng.choice(c["notes"])
+        if r < 0.80:
+            f = rng.choice(["voice", "staff", "arts", "arts_append", "orns"])
+            v = (rng.randint(1, 12) if f == "voice" else rng.randint(1, 11) if f == "staff" else rng.choice(ART_VOCAB) if f == "arts_append"
+                 else rng.sample(ART_VOCAB, rng.randint(0, 2)) if f == "arts" else rng.sample(ORN_VOCAB, rng.randint(0, 1)))
+            return dict(op="note_attr", slot=slot, id=n["id"], field=f, value=v)
+        if r < 0.85:
+            return dict(op="note_spell", slot=slot, id=n["id"], step=rng.choice(STEPS), alter=rng.choice([0, 0, 1, -1, None]), octave=rng.randint(1, 7))
+        if r < 0.89:
+            return dict(op="note_remove", slot=slot, id=n["id"])
+        if r < 0.94:
+            fresh_id[0] += 1
+            b = c["bounds"]
+            mi = rng.randrange(len(b) - 1)
+            g = c["grid"]
+            slots_ = (b[mi + 1] - b[mi]) // g
+            k0 = rng.randrange(slots_)
+            d = g * rng.randint(1, slots_ - k0)
+            return dict(op="note_add", slot=slot, note=dict(id="x%d" % fresh_id[0], step=rng.choice(STEPS), alter=rng.choice([0, 1, -1]), octave=rng.randint(1, 7),
+                                                            on=b[mi] + k0 * g, dur=d, voice=rng.randint(1, 4), staff=rng.randint(1, 2), grace=False,
+                                                            arts=rng.sample(ART_VOCAB, rng.randint(0, 1)), orns=[], fermata=False, fingering=None, tie=[]))
+        if r < 0.97:
+            return dict(op="note_dur", slot=slot, id=n["id"], dur=c["grid"] * rng.randint(1, 6))
+        return dict(op="key_set", slot=slot, mi=rng.randrange(len(c["bounds"]) - 1), fifths=rng.randint(-7, 7), mode=rng.choice(["major", "minor"]))
+
+    def draw_save(slot):
+        r = rng.random()
+        clock = list(desc[slot].get("pclock") or pick_clock(rng)) if r < 0.3 else list(pick_clock(rng))
+        if desc[slot].get("_hint_clock") and rng.random() < 0.85:
+            clock = list(desc[slot].pop("_hint_clock"))
+        if hist["ops"] and r > 0.7:
+            prev = [o for o in hist["ops"] if o["op"] == "save" and o["slot"] == slot]
+            if prev:
+                clock = list(prev[-1]["clock"])  # the clock of the last save again
+        return dict(op="save", slot=slot, clock=clock, skind=rng.choice(["part", "score", "score", "list"]),
+                    pkind=rng.choice(["ppart", "performance", "performance", "list"]), ckind=rng.choice(["int", "int", "i64", "i32"]))
+
+    def draw_load(slot):
+        seq = []
+        for _ in range(rng.randint(3, 7)):
+            seq.append(rng.choice(["perf", "perf", "align", "align", "part", "part", "perf_zero", "perf_scribble", "part_scribble", "validate",
+                                   "drop:%d" % rng.randrange(50), "drop:%d" % rng.randrange(50), "droppedal:%d" % rng.randrange(20), "vel:%d" % rng.randrange(50)]))
+        seq += rng.sample(["perf", "align", "part"], 3)
+        return dict(op="load", slot=slot, seq=seq, stress=rng.randrange(10 ** 6) if rng.random() < 0.3 else None, scribble_alignment=rng.random() < 0.5)
+
+    slots_ = sorted(desc)
+    for s in slots_:
+        hist["ops"].append(draw_save(s))
+    for _ in range(rng.randint(3, 5)):
+        s = rng.choice(slots_)
+        for _ in range(rng.randint(1, 3)):
+            for _try in range(6):
+                e = draw_edit(s)
+                if e and edit_desc(desc[s], e):
+                    hist["ops"].append(e)
+                    break
+        r = rng.random()
+        if r < 0.12:
+            hist["ops"].append(dict(op="save_ret", slot=s, clock=list(pick_clock(rng))))
+        hist["ops"].append(draw_save(s))
+        if len(slots_) > 1 and rng.random() < 0.5:
+            hist["ops"].append(draw_save([x for x in slots_ if x != s][0]))  # the other input in between
+        r = rng.random()
+        if r < 0.3:
+            hist["ops"].append(draw_load(s))
+        elif r < 0.45:
+            hist["ops"].append(dict(op="adopt", slot=s))
+            last = [o for o in hist["ops"] if o["op"] == "save" and o["slot"] == s][-1]
+            desc[s]["pclock"] = list(last["clock"])
+    hist["ops"].append(draw_load(rng.choice(slots_)))
+    return hist
+
+
+def history_guarded(hist, workdir, name="h", seconds=90):
+    import signal
+
+    def h(*a):
+        raise _Timeout()
+    old = signal.signal(signal.SIGVTALRM, h)
+    signal.setitimer(signal.ITIMER_VIRTUAL, seconds)
+    try:
+        return run_history(hist, workdir, name)
+    except _Timeout:
+        return [(0, "load_error", "no result after %d s of CPU time" % seconds)], dict(phist=[], mhist=[]), {}
+    finally:
+        signal.setitimer(signal.ITIMER_VIRTUAL, 0)
+        signal.signal(signal.SIGVTALRM, old)
+
+
+def shrink_history(hist, clause, workdir):
+    """the shortest list of operations (ddmin) that still violates the same clause; then drop slot B if unused"""
+    def fails(ops):
+        try:
+            b, _, _ = history_guarded(dict(hist, ops=ops), workdir, "hs", 30)
+        except Exception:
+            return False
+        return any(x[1] == clause for x in b)
+    try:
+        ops = core.ddmin(hist["ops"], fails)
+    except Exception:
+        ops = hist["ops"]
+    out = dict(hist, ops=ops)
+    if hist.get("B") and not any(o.get("slot") == "B" for o in ops):
+        out["B"] = None
+    elif hist.get("B") and not any(o.get("slot", "A") == "A" for o in ops):
+        out = dict(out, A=hist["B"], B=None, ops=[dict(o, slot="A") for o in ops])
+        if not fails(out["ops"]) and True:
+            out = dict(hist, ops=ops)
+    return out
+
+
+# hand-written histories, run first on every run: one per way of carrying state that a past change used
+def _hist_corpus():
+    base = _corpus_case(4, [0, 16, 32], [[0, 4, 4]], [[0, 0, "major"]], [
+        _q(0, 0, arts=["staccato"]), _q(1, 4), _q(2, 8, v=2), _q(3, 16, 8), _q(4, 24, sf=2)], insertions=1)
+    base["pclock"] = [480, 500000]
+    for p in base["pnotes"]:
+        p["on_tick"], p["off_tick"] = int(Fraction(p["on"]) * 960), int(Fraction(p["off"]) * 960)
+    other = _corpus_case(6, [0, 18, 36], [[0, 3, 4]], [[0, 2, "minor"]], [_q(0, 0, 6), _q(1, 6, 6), _q(2, 12, 6), _q(3, 18, 18)], clock=(1000, 600000))
+    S = lambda slot="A", clock=(480, 500000), **kw: dict(dict(op="save", slot=slot, clock=list(clock), skind="part", pkind="ppart", ckind="int"), **kw)
+    return [
+        ("move_note_between_saves_same_clock", dict(kind="history", A=base, B=None, ops=[
+            S(), dict(op="pn_time", slot="A", pid="n1", on="5/8", off="7/8", kind="float"), S(),
+            # a single precision time 0.0014 tick below a half tick of the clock asked next (20009.4986 ticks): a product in single precision rounds up
+            dict(op="pn_time", slot="A", pid="n2", on="1573611/131072", off="13", kind="f32"), S(clock=(1000, 600000), ckind="i64"),
+            dict(op="pp_clock", slot="A", ppq=1000, mpq=600000), S(clock=(1000, 600000))])),
+        ("edit_score_between_saves", dict(kind="history", A=base, B=None, ops=[
+            S(skind="score"), dict(op="note_attr", slot="A", id="s1", field="arts_append", value="accent"),
+            dict(op="note_attr", slot="A", id="s0", field="arts_append", value="tenuto"), S(skind="score"),
+            dict(op="note_dur", slot="A", id="s2", dur=6), dict(op="note_attr", slot="A", id="s2", field="voice", value=11),
+            dict(op="key_set", slot="A", mi=1, fifths=-3, mode="minor"), S(skind="score"),
+            dict(op="note_remove", slot="A", id="s1"), dict(op="al_relabel", slot="A", sid="s2"), S(skind="list", pkind="list")])),
+        ("two_inputs_both_orders_one_score_container", dict(kind="history", A=base, B=other, ops=[
+            S("A", skind="score", pkind="performance"), S("B", (1000, 600000), skind="score", pkind="performance"),
+            S("A", skind="score", pkind="performance"), S("B", (1000, 600000), skind="score", pkind="performance"), S("B", skind="part"), S("A", (1000, 600000), skind="part"),
+            dict(op="load", slot="A", seq=["perf", "part", "align", "perf"], stress=None, scribble_alignment=True),
+            dict(op="load", slot="B", seq=["part", "perf", "align"], stress=None, scribble_alignment=False)])),
+        ("matchfile_edited_between_calls", dict(kind="history", A=base, B=None, ops=[
+            S(), dict(op="load", slot="A", seq=["part", "perf", "align", "perf_scribble", "part_scribble", "perf", "align", "part", "drop:5", "align", "perf",
+                                                "vel:0", "perf", "droppedal:1", "perf", "perf_zero", "perf", "validate", "align", "drop:0", "part", "align"],
+                      stress=None, scribble_alignment=True),
+            dict(op="save_ret", slot="A", clock=[480, 500000]), S(),
+            dict(op="adopt", slot="A"), dict(op="pn_time", slot="A", pid="n0", on="1/8", off="3/8", kind="f64"), S()])),
+    ]
+
+
+# ----------------------------------------------------------------------------
 # run
 
 
@@ -1644,7 +2545,17 @@ def run(ctx):
                 "distinct history with at least one of: pickup, time-signature change, non-quarter meter, key change, tie, grace note, "
                 "non-match alignment label, pedal events, bar starting with a rest, stored ticks, a further leg; plus stressed copies of "
                 "the written files (duplicated and conflicting lines) and the fixture match files of tests/data/match, each also "
-                "saved again with other clocks and loaded (alignment, performance, clock, note ids)")
+                "saved again with other clocks and loaded (alignment, performance, clock, note ids); plus HISTORIES ON LIVE OBJECTS (state "
+                "carried between calls): 4 hand-written + 50 (thorough 600) generated operation lists over one or two inputs -- save_match "
+                "(Part / Score / list, PerformedPart / Performance / list, clock as int / numpy int; file or returned MatchFile), edits "
+                "through the public API and in place (note times as float / numpy float64 / float32 / int, velocity, notes replaced / "
+                "appended / deleted, controls, the part's clock attributes, alignment entries relabelled / moved, score note attributes, "
+                "spelling, duration, notes added / removed, key signature, the part of ONE Score / Performance container replaced), "
+                "going on with the loaded performance, and the readers load_matchfile / performed_part_from_match / part_from_matchfile / "
+                "alignment_from_matchfile called repeatedly in generated order with MatchFile.lines and the returned objects written "
+                "into in between; every observation is judged against the CURRENT state only (objects freshly built from the current "
+                "description / a fresh load of the text the MatchFile holds), by the direct oracle, and by the state machines of "
+                "Model/C08_Hist.v; a history is non-trivial when distinct")
     ctx.trusted = ["Coq 8.16.1 kernel incl. vm_compute", "harness/props/c08.py (generator, observers, Coq term printers, Python mirror of the documented id resolution)",
                    "partitura's line parser/formatter for single lines (property C07) and Part/PerformedPart constructors, note_array, beat_map, time_signature_map (C01, C02, C05, C10) used to build inputs and read results"]
     ctx.assumptions = ["score: one part, one divisions value, complete last measure, every measure has at least one note onset (only note lines carry measure numbers), a pickup measure starts with a note, reduced offset/duration fractions have numerator and denominator <= 1024 (larger ones are approximated by the line codec, C07)",
@@ -1656,7 +2567,7 @@ def run(ctx):
     ctx.matchers["C08-K1"] = k1_matcher
     ctx.matchers["C08-K2"] = k2_matcher
     gen()
-    ok, why = ctx.coq_props(expect_min=57)
+    ok, why = ctx.coq_props(expect_min=60)
     quick = ctx.tier == "quick"
     ncases = 240 if quick else 3000
     work = ctx.work
@@ -1815,6 +2726,42 @@ def run(ctx):
                 pass
     ctx.count("import_terms_skipped", skipped)
     ctx.log("generated cases done")
+    # histories: state carried between calls (hand-written ones first)
+    ph_terms, ph_cases, mh_terms, mh_cases = [], [], [], []
+    hcorpus = _hist_corpus()
+    nhist = 50 if quick else 600
+    for i in range(-len(hcorpus), nhist):
+        if i < 0:
+            hist = hcorpus[i][1]
+            ctx.count("history_corpus:" + hcorpus[i][0])
+        else:
+            hist = gen_history(ctx.rng)
+        hbad, hterms, hcounts = history_guarded(hist, work, "h%d" % i)
+        for k, v in sorted(hcounts.items()):
+            ctx.count(k, v)
+        ctx.evaluations += hcounts.get("h:save", 0) + hcounts.get("h:save_returned", 0) + len([o for o in hist["ops"] if o["op"] == "load"])
+        ctx.count("histories")
+        ctx.nontrivial("history:" + json.dumps(hist["ops"], sort_keys=True))
+        if hbad:
+            if n_viol < 8:
+                oi, clause, msg = hbad[0]
+                small = shrink_history(hist, clause, work)
+                sb, _, _ = history_guarded(small, work, "hsmall")
+                sb = [b for b in sb if b[1] == clause] or sb or hbad
+                ctx.violation("C08 history (state carried between calls) %s at operation %d %s: %s" % (clause, sb[0][0], small["ops"][sb[0][0]] if sb[0][0] < len(small["ops"]) else "", sb[0][2]),
+                              dict(small, clause=clause, message=sb[0][2], all=[b[2] for b in sb[:6]]))
+                n_viol += 1
+            if not os.environ.get("C08_TERMS_ALWAYS"):
+                continue
+        else:
+            ctx.count("history_ok")
+        for t in hterms["phist"]:
+            ph_terms.append(t)
+            ph_cases.append(hist)
+        for t in hterms["mhist"]:
+            mh_terms.append(t)
+            mh_cases.append(hist)
+    ctx.log("histories done")
     # fixtures of all historical versions
     fx_dir = os.path.join(core.REPO, "tests", "data", "match")
     for fn in sorted(os.listdir(fx_dir)):
@@ -1912,6 +2859,8 @@ def run(ctx):
             ("defined", df_terms, df_cases, "chk_defined", "model save_defined (a match entry pairs a performed note with a score note that has a duration) = save_match succeeded (every leg; boundary of the known finding C08-K1)"),
             ("reader", rd_terms, rd_labels, "chk_reader", "model validate(unique_first(lines)) = note lines returned by load_matchfile (written, stressed and fixture files)"),
             ("alignment", al_terms, rd_labels, "chk_alignment", "model alignment_of = alignment_from_matchfile"),
+            ("phist", ph_terms, ph_cases, "chk_phist", "state machine hobs (Model/C08_Hist.v: notes moved / replaced / appended / deleted, velocity and the part's clock attributes changed between saves with any clocks, notes with and without stored ticks) = played-note fields written by every save_match of a history on ONE live PerformedPart"),
+            ("mhist", mh_terms, mh_cases, "chk_mhist", "state machine mobs (lines deleted from MatchFile.lines, validate_match_ids run again between the calls) = alignment_from_matchfile(mf) and the ids of mf.notes at every call of a history on ONE live MatchFile"),
             # informational: the staff / voice CHOSEN for notes written without one (not named by the property)
             ("attrs_fill", ai_terms[:120 if quick else 1500], ai_cases[:120 if quick else 1500], "chk_attrs_fill", None)]
     # all streams are evaluated together: every case is the boolean  checker term ; the cases are dealt to
@@ -1967,7 +2916,27 @@ def run(ctx):
 def replay(obj):
     r = obj.get("replay", obj)
     print(json.dumps({k: v for k, v in obj.items() if k != "replay"}, indent=1, default=str)[:2000])
-    if isinstance(r, dict) and r.get("case"):
+    if isinstance(r, dict) and r.get("case") and r["case"].get("kind") == "history":
+        r = r["case"]
+    if isinstance(r, dict) and r.get("kind") == "history":
+        wd = os.path.join(core.WORKROOT, "C08_replay")
+        bad, _, counts = history_guarded(r, wd, "replay")
+        for s_ in ("A", "B"):
+            c = r.get(s_)
+            if c:
+                print("slot %s: divs=%s tsigs=%s ksigs=%s bounds=%s pclock=%s notes=%s pnotes=%s alignment=%s controls=%d" % (
+                    s_, c["divs"], c["tsigs"], c["ksigs"], c["bounds"], c.get("pclock"),
+                    [(n["id"], n["on"], n["dur"], n["voice"], n["staff"], n["arts"]) for n in c["notes"]][:12],
+                    [(p["id"], p["pitch"], float(Fraction(p["on"])), float(Fraction(p["off"])), p.get("on_tick")) for p in c["pnotes"]][:12],
+                    [(a["label"], a.get("score_id"), a.get("performance_id")) for a in c["alignment"]][:12], len(c["controls"])))
+        for k, op in enumerate(r["ops"]):
+            print("op %d: %s" % (k, json.dumps(op, sort_keys=True)[:400]))
+            for b in bad:
+                if b[0] == k:
+                    print("   VIOLATED %s: %s" % (b[1], b[2]))
+        import shutil
+        shutil.rmtree(wd, ignore_errors=True)
+    elif isinstance(r, dict) and r.get("case"):
         case = r["case"]
         wd = os.path.join(core.WORKROOT, "C08_replay")
         bad, chain = run_guarded(case, wd, "replay")
